@@ -122,17 +122,21 @@ def verbsOf (tbl : List PCall) (fn kind : String) : List (List String) :=
     (`traitLine`, `nodeLine`, `geneLine`, `startLine`, `endLine`) -/
 def plainWriterShape : List PCall := [
   { fn := "WriteGenome", kind := "Fprintf", format := "genomestart %d\n", verbs := ["genomestart", "%d"], args := ["g.Id"] },
+  { fn := "WriteGenome", kind := "range", format := "g.Traits", verbs := [], args := [] },
   { fn := "WriteGenome", kind := "Fprint", format := "", verbs := [], args := ["\"trait \""] },
   { fn := "WriteGenome", kind := "call", format := "writeTrait", verbs := [], args := [] },
   { fn := "WriteGenome", kind := "Fprintln", format := "", verbs := [], args := ["\"\""] },
+  { fn := "WriteGenome", kind := "range", format := "g.Nodes", verbs := [], args := [] },
   { fn := "WriteGenome", kind := "Fprint", format := "", verbs := [], args := ["\"node \""] },
   { fn := "WriteGenome", kind := "call", format := "writeNetworkNode", verbs := [], args := [] },
   { fn := "WriteGenome", kind := "Fprintln", format := "", verbs := [], args := ["\"\""] },
+  { fn := "WriteGenome", kind := "range", format := "g.Genes", verbs := [], args := [] },
   { fn := "WriteGenome", kind := "Fprint", format := "", verbs := [], args := ["\"gene \""] },
   { fn := "WriteGenome", kind := "call", format := "writeConnectionGene", verbs := [], args := [] },
   { fn := "WriteGenome", kind := "Fprintln", format := "", verbs := [], args := ["\"\""] },
   { fn := "WriteGenome", kind := "Fprintf", format := "genomeend %d\n", verbs := ["genomeend", "%d"], args := ["g.Id"] },
   { fn := "writeTrait", kind := "Fprintf", format := "%d ", verbs := ["%d"], args := ["t.Id"] },
+  { fn := "writeTrait", kind := "range", format := "t.Params", verbs := [], args := [] },
   { fn := "writeTrait", kind := "Fprintf", format := "%g ", verbs := ["%g"], args := ["p"] },
   { fn := "writeTrait", kind := "Fprintf", format := "%g", verbs := ["%g"], args := ["p"] },
   { fn := "writeNetworkNode", kind := "Fprintf", format := "%d %d %d %d %s", verbs := ["%d", "%d", "%d", "%d", "%s"], args := ["n.Id", "(n.Trait != nil ? n.Trait.Id : 0)", "n.NodeType()", "n.NeuronType", "actStr"] },
@@ -140,6 +144,7 @@ def plainWriterShape : List PCall := [
 
 /-- the shape of the plain reader that `PlainIO.step`/`readTrait`/`readNode`/`readGene` implement -/
 def plainReaderShape : List PCall := [
+  { fn := "Read", kind := "for", format := "scanner.Scan()", verbs := [], args := [] },
   { fn := "Read", kind := "SplitN", format := "\" \"/2", verbs := [], args := ["line"] },
   { fn := "Read", kind := "call", format := "readPlainTrait", verbs := [], args := [] },
   { fn := "Read", kind := "TraitWithId", format := "", verbs := [], args := ["newTrait.Id", "gnome.Traits"] },
@@ -147,6 +152,7 @@ def plainReaderShape : List PCall := [
   { fn := "Read", kind := "call", format := "readPlainConnectionGene", verbs := [], args := [] },
   { fn := "Read", kind := "Fscanf", format := "%d", verbs := ["%d"], args := ["gId"] },
   { fn := "readPlainTrait", kind := "Fscanf", format := "%d ", verbs := ["%d"], args := ["nt.Id"] },
+  { fn := "readPlainTrait", kind := "for", format := "i < neat.NumTraitParams", verbs := [], args := [] },
   { fn := "readPlainTrait", kind := "Fscanf", format := "%g ", verbs := ["%g"], args := ["nt.Params[i]"] },
   { fn := "readPlainNetworkNode", kind := "Split", format := "\" \"", verbs := [], args := ["string(line)"] },
   { fn := "readPlainNetworkNode", kind := "ParseInt", format := "10/32", verbs := [], args := ["parts[0]"] },
@@ -156,6 +162,7 @@ def plainReaderShape : List PCall := [
   { fn := "readPlainNetworkNode", kind := "ActivationTypeFromName", format := "", verbs := [], args := ["parts[4]"] },
   { fn := "readPlainConnectionGene", kind := "Fscanf", format := "%d %d %d %g %t %d %g %t ", verbs := ["%d", "%d", "%d", "%g", "%t", "%d", "%g", "%t"], args := ["traitId", "inNodeId", "outNodeId", "weight", "recurrent", "innovationNum", "mutNum", "enabled"] },
   { fn := "readPlainConnectionGene", kind := "TraitWithId", format := "", verbs := [], args := ["traitId", "traits"] },
+  { fn := "readPlainConnectionGene", kind := "range", format := "nodes", verbs := [], args := [] },
   { fn := "readPlainConnectionGene", kind := "NewConnectionGene", format := "", verbs := [], args := ["network.NewLinkWithTrait(trait, weight, inNode, outNode, recurrent)", "innovationNum", "mutNum", "enabled"] },
   { fn := "readPlainConnectionGene", kind := "NewLinkWithTrait", format := "", verbs := [], args := ["TraitWithId(traitId, traits)", "weight", "inNode", "outNode", "recurrent"] },
   { fn := "readPlainConnectionGene", kind := "NewConnectionGene", format := "", verbs := [], args := ["network.NewLink(weight, inNode, outNode, recurrent)", "innovationNum", "mutNum", "enabled"] },
@@ -177,6 +184,7 @@ theorem plain_formats_aligned :
     `genomeend <id>` and appends every other line with `Fprintln` - the shape `PlainIO.popStep` implements -/
 theorem population_reader_shape :
     populationReader.map (fun c => (c.kind, c.format)) =
-      [("SplitN", "\" \"/2"), ("Sprintf", "genomestart %s\n"), ("Fprintf", "genomeend %d"), ("Fprintln", "")] := by decide
+      [("for", "scanner.Scan()"), ("SplitN", "\" \"/2"), ("Sprintf", "genomestart %s\n"), ("Fprintf", "genomeend %d"),
+       ("Fprintln", "")] := by decide
 
 end GoNeat.C15
